@@ -20,6 +20,9 @@ package nextstrain
 //@ func io/nextstrain.cladeToTree
 //@   flag noframe
 //@   flag lightcalls
+//@   flag countcalls
+//@   ensures [every_node_but_the_root_gets_its_length_a_named_node_its_name_an_annotated_node_one_comment] ghost(ncalls_SetLength) == old(ghost(ncalls_SetLength)) + (parent != nil ? 1 : 0) && ghost(ncalls_SetName) == old(ghost(ncalls_SetName)) + (old(c.Name) != "" ? 1 : 0) && ghost(ncalls_AddComment) == old(ghost(ncalls_AddComment)) + ((old(c.BranchAttr.Labels.Aa) != "" || old(c.Attributes.Accession) != "" || old(c.Attributes.Country.Value) != "" || old(c.Attributes.Date.Value) != 0.0) ? 1 : 0)
+//@   ensures [every_node_gets_a_tree_node_of_its_own] ghost(ncalls_NewNode) == old(ghost(ncalls_NewNode)) + 1 && ghost(ncalls_ConnectNodes) == old(ghost(ncalls_ConnectNodes)) + (parent != nil ? 1 : 0)
 //@   requires c != nil && t != nil && nedges != nil && nnodes != nil
 //@   call (*tree.Tree).ConnectNodes [the_node_hangs_under_its_parent_s_node] a0 == t && a1 == parent && a2 == newNode && parent != nil && fresh(newNode)
 //@   call (*tree.Edge).SetLength [branch_length_is_the_divergence_gained_since_the_parent] a0 == e && a1 == c.Attributes.Divergence - prevdiv
